@@ -43,28 +43,31 @@ def b64Encode : Bytes → Bytes
     let v := a.toNat * 65536 + b.toNat * 256 + c.toNat
     b64Char (v / 262144 % 64) :: b64Char (v / 4096 % 64) :: b64Char (v / 64 % 64) :: b64Char (v % 64) :: b64Encode rest
 
-/-- quanta of the input with `\r`/`\n` already removed; padding only in the last quantum, nothing after it;
-the bits that do not fill a byte are dropped without being checked (non-strict decoder) -/
+/-- quanta of the input with `\r`/`\n` already removed; padding (`=` is 61) only in the last quantum, nothing after
+it; the bits that do not fill a byte are dropped without being checked (non-strict decoder). A `=` anywhere else
+is not in the alphabet (`b64Val 61 = none`) and fails the general case. -/
 def b64DecodeQuanta : Bytes → Option Bytes
   | [] => some []
-  | [a, b, 61, 61] =>
-    match b64Val a, b64Val b with
-    | some x, some y => some [UInt8.ofNat ((x * 64 + y) / 16)]
-    | _, _ => none
-  | [a, b, c, 61] =>
-    match b64Val a, b64Val b, b64Val c with
-    | some x, some y, some z =>
-      let v := (x * 64 + y) * 64 + z
-      some [UInt8.ofNat (v / 1024), UInt8.ofNat (v / 4 % 256)]
-    | _, _, _ => none
   | a :: b :: c :: d :: rest =>
-    match b64Val a, b64Val b, b64Val c, b64Val d with
-    | some x, some y, some z, some w =>
-      let v := ((x * 64 + y) * 64 + z) * 64 + w
-      match b64DecodeQuanta rest with
-      | some out => some (UInt8.ofNat (v / 65536) :: UInt8.ofNat (v / 256 % 256) :: UInt8.ofNat (v % 256) :: out)
-      | none => none
-    | _, _, _, _ => none
+    if d = 61 ∧ rest = [] then
+      if c = 61 then
+        match b64Val a, b64Val b with
+        | some x, some y => some [UInt8.ofNat ((x * 64 + y) / 16)]
+        | _, _ => none
+      else
+        match b64Val a, b64Val b, b64Val c with
+        | some x, some y, some z =>
+          let v := (x * 64 + y) * 64 + z
+          some [UInt8.ofNat (v / 1024), UInt8.ofNat (v / 4 % 256)]
+        | _, _, _ => none
+    else
+      match b64Val a, b64Val b, b64Val c, b64Val d with
+      | some x, some y, some z, some w =>
+        let v := ((x * 64 + y) * 64 + z) * 64 + w
+        match b64DecodeQuanta rest with
+        | some out => some (UInt8.ofNat (v / 65536) :: UInt8.ofNat (v / 256 % 256) :: UInt8.ofNat (v % 256) :: out)
+        | none => none
+      | _, _, _, _ => none
   | _ => none
 
 /-- `base64.StdEncoding.DecodeString` -/
@@ -292,6 +295,22 @@ def signTreeHead (cv : Crypto) (sign : PubKey → Bytes → Bytes) (c : Config) 
             let own := if swap then [ws, rs] else [rs, ws]
             let g := grease.filter fun s => !(s.name = c.name ∧ (s.hash = c.keyHash ∨ s.hash = c.witnessKeyHash))
             some { text := text, sigs := g ++ own }
+
+/-- what `signTreeHead` needs to succeed: a valid log name (no newline; the ML-DSA cosigner also needs 1..255
+bytes), an ECDSA log key, distinct key hashes for the two signers, a tree head whose size and time are
+non-negative int64 values with a 32-byte root, a UNIX time for the cosignature, and at most 98 grease lines
+(`note.Open` refuses more than 100 signature lines) -/
+structure SignPre (c : Config) (n time : Int) (hash : Bytes) (cosigTime : Nat) (grease : List SigLine) : Prop where
+  name_nl : (10 : UInt8) ∉ c.name
+  name_len : 1 ≤ c.name.length ∧ c.name.length ≤ 255
+  key_ecdsa : c.key.kind = .ecdsa
+  key_id : c.key.id.length ≤ 1000
+  hashes : c.keyHash ≠ c.witnessKeyHash
+  n_range : 0 ≤ n ∧ n ≤ 9223372036854775807
+  t_range : 0 ≤ time ∧ time ≤ 9223372036854775807
+  hash_len : hash.length = 32
+  cosig : cosigTime ≤ 9223372036854775807
+  grease_len : grease.length ≤ 98
 
 /-- `openCheckpoint(config, b)` after the byte-level split of the note, for any two note verifiers `v1` (RFC 6962)
 and `v2` (cosignature); `now` is `timeNowUnixMilli()` -/
